@@ -23,14 +23,39 @@ def build(tier, workdir, seed):
         for lhs in re.findall(r'(?:^|[;{(\s])([A-Za-z_]\w*)\s*(?:\^=|\*=|\+=|-=|<<=|>>=|\|=|&=|=)(?!=)', body):
             if not lhs.startswith('xv_') and lhs not in ('GH32', 'GH64'):
                 raise Exception('ghost hook %s assigns non-ghost %s' % (nm, lhs))
-    return {'jobs': jobs, 'units': [u], 'trusted_base': sorted(u.std.used) + ['clang 14 AST; xtl2c lowering rules (DESIGN.md 3.2)',
+    # std::hash<xbasic_fixed_string>: hashes exactly the size() characters of the string with the fixed seed (hash_bytes itself: above)
+    INST_FS = '''#include <xtl/xbasic_fixed_string.hpp>
+using FS = xtl::xbasic_fixed_string<char, 16, xtl::buffer | xtl::store_size, xtl::string_policy::throwing_error>;
+std::size_t hs(const FS& s) { return std::hash<FS>()(s); }
+'''
+    sel_fs = lambda fn, q, lw: q.startswith('std::hash') and fn.get('name') == 'operator()' and 'xbasic_fixed_string' in fn['type']['qualType']
+    c_fs = '''#define RV __CPROVER_return_value
+/* the packed layout of a 16-character fixed string: 17 bytes, the last one holds 16 - size() */
+#define FS_OK(a) (__CPROVER_is_fresh(a, sizeof(*(a))) && (unsigned char)(a)->m_storage.m_buffer[16] <= 16)
+#define FS_SIZE(a) (16ul - (unsigned long)(unsigned char)(a)->m_storage.m_buffer[16])
+#define XV_CONTRACT_fsh__op_call__rfs_c __CPROVER_requires(__CPROVER_is_fresh(self, sizeof(*self)) && FS_OK(arg)) \\
+  __CPROVER_ensures(RV == __CPROVER_uninterpreted_hb(0ul, FS_SIZE(arg), 0xc70f6907ul)) __CPROVER_assigns()
+'''
+    x_fs = '''/* xtl::hash_bytes as seen by its caller: reads `length` bytes at `buffer` (checked), result = a function of (where in the
+   argument object it starts, length, seed); that it is a function of the BYTES is what the hash unit above proves */
+unsigned long __CPROVER_uninterpreted_hb(unsigned long, unsigned long, unsigned long);
+unsigned long hash_bytes__pv_ul_ul(void* buffer, unsigned long length, unsigned long seed)
+{
+  __CPROVER_assert(length == 0 || __CPROVER_r_ok(buffer, length), "hash_bytes is given a length inside the string object");
+  return __CPROVER_uninterpreted_hb((unsigned long)__CPROVER_POINTER_OFFSET(buffer), length, seed);
+}
+'''
+    ufs = Unit('fshash', INST_FS, sel_fs, 'unsigned long __CPROVER_uninterpreted_hb(unsigned long, unsigned long, unsigned long);\n' + c_fs,
+               [(r'xtl::xbasic_fixed_string<char,16,.*>', 'fs'), (r'std::hash<xtl::xbasic_fixed_string<.*>>', 'fsh')], opaque=[r'xtl::hash_bytes'], extra_c=x_fs).lower(workdir)
+    jobs += ufs.contract_jobs(PROP, timeout=300, inline_all=True)
+    return {'jobs': jobs, 'units': [u, ufs], 'trusted_base': sorted(u.std.used) + ['clang 14 AST; xtl2c lowering rules (DESIGN.md 3.2)',
                 'reference MurmurHash2 / MurmurHash64A transcribed as ghost code in contracts/C14_hash.h'],
             'assumptions': ['unsigned multiplication is an uninterpreted function in this unit (code and reference agree for every interpretation of *, hence for machine multiplication); SAT cannot decide multiplier miters here',
                             'unaligned *(uint32_t*) loads and memcpy block loads are modelled as on x86-64 (little-endian byte order, no alignment traps)',
                             'buffer length bounded by XV_MAXLEN = 10^6 (so static_cast<uint32_t>(length) is exact)',
                             'load_bytes (<= 7 iterations) is inlined and unwound with unwinding assertions: width-bounded, complete',
-                            'std::hash<xbasic_fixed_string> is covered by C01/C14 fixed-string unit when present (see coverage_extra.not_reached)'],
-            'coverage_extra': {'not_reached': ['std::hash<xbasic_fixed_string<...>>::operator() (needs the fixed-string unit)'],
+                            'std::hash<xbasic_fixed_string<char,16>>: proved to call hash_bytes on exactly the size() characters with the fixed seed and a length inside the object (unit fshash; hash_bytes there is an uninterpreted function of start offset, length, seed)'],
+            'coverage_extra': {'not_reached': [],
                                'loop_contracts': ['murmur2_x86_impl block loop', 'murmur_hash<8> block loop']}}
 
 
